@@ -31,7 +31,7 @@ var shard, nshards = 0, 1
 // mine reports whether the current case id belongs to this shard; generators always run (the PRNG
 // stream is the same in every shard), only the evaluation is divided.
 func mine() bool {
-	if id < 21 { // the constants and the hand-written witness cases: shard 0 (first replays)
+	if id < 26 { // the constants and the hand-written witness cases: shard 0 (first replays)
 		if shard == 0 {
 			return true
 		}
@@ -1121,6 +1121,64 @@ func genKeep(r *hx.Rand) {
 	}
 }
 
+// wide results: exactly 32·k measurements (and the neighbours) — the mask words of a Match are full.
+var wideNs = []int{31, 32, 33, 63, 64, 65, 96, 128}
+
+func genWide(r *hx.Rand, n int) {
+	mk := func(special map[int]string) histLine {
+		l := histLine{name: "Keep"}
+		for i := 0; i < n; i++ {
+			u := fmt.Sprintf("m%02d/op", i)
+			if sp, ok := special[i]; ok {
+				u = sp
+			}
+			v := float64(1 + r.Intn(1000))
+			l.meas = append(l.meas, meas{strconv.FormatFloat(v, 'g', -1, 64), v, u})
+		}
+		return l
+	}
+	spell := []string{"ns/op", "sec/op", "MB/s", "B/s", "ns/op"}
+	special := map[int]string{}
+	lastWord := 32 * ((n - 1) / 32)
+	switch r.Intn(5) {
+	case 0: // matches only in the last mask word
+		for k := 1 + r.Intn(3); k > 0; k-- {
+			special[lastWord+r.Intn(n-lastWord)] = hx.Pick(r, spell)
+		}
+	case 1: // only in the first word
+		for k := 1 + r.Intn(3); k > 0; k-- {
+			special[r.Intn(min(n, 32))] = hx.Pick(r, spell)
+		}
+	case 2: // scattered
+		for k := 1 + r.Intn(8); k > 0; k-- {
+			special[r.Intn(n)] = hx.Pick(r, spell)
+		}
+	case 3: // none
+	default: // every measurement in one spelling family
+		for i := 0; i < n; i++ {
+			special[i] = hx.Pick(r, []string{"ns/op", "sec/op"})
+		}
+	}
+	lines := []histLine{mk(special)}
+	if r.Bool() {
+		small := histLine{name: "Keep", meas: []meas{{"5", 5, "sec/op"}, {"7", 7, "m00/op"}, {"0", 0, "ns/op"}}}
+		if r.Bool() {
+			lines = append(lines, small)
+		} else {
+			lines = append([]histLine{small}, lines...)
+		}
+	}
+	type fp struct{ k, p string }
+	f := hx.Pick(r, []fp{{"u", "ns/op"}, {"u", "sec/op"}, {"nu", "sec/op"}, {"nu", "ns/op"}, {"u", "no-such-unit"}, {"nu", "no-such-unit"},
+		{"re-prefix", "m"}, {"nre-prefix", "m"}, {"re-prefix", "sec"}, {"u", fmt.Sprintf("m%02d/op", n-1)}, {"u", "m00/op"}, {"re-suffix", "/s"}})
+	if r.Chance(1, 3) {
+		// the same through Filter.Apply on the Reader's own Result
+		histCase([][]histLine{lines}, f.k, f.p)
+	} else {
+		keepCase(lines, f.k, f.p, r.Chance(1, 5))
+	}
+}
+
 // ---------------------------------------------------------------- main
 
 func main() {
@@ -1188,6 +1246,30 @@ func main() {
 		keepCase(keepLines, w[0], w[1], false)
 	}
 	keepCase(keepLines, "u", "ns/op", true)
+	// seed C04-S: exactly 32 / 64 measurements
+	w32 := histLine{name: "Keep"}
+	for i := 0; i < 32; i++ {
+		u := fmt.Sprintf("m%02d/op", i)
+		if i == 3 {
+			u = "ns/op"
+		} else if i == 20 {
+			u = "sec/op"
+		}
+		w32.meas = append(w32.meas, m(strconv.Itoa(i+1), float64(i+1), u))
+	}
+	w64 := histLine{name: "Keep"}
+	for i := 0; i < 64; i++ {
+		u := fmt.Sprintf("m%02d/op", i)
+		if i == 40 {
+			u = "ns/op"
+		}
+		w64.meas = append(w64.meas, m(strconv.Itoa(i+1), float64(i+1), u))
+	}
+	keepCase([]histLine{w32}, "u", "ns/op", false)
+	keepCase([]histLine{w32}, "nu", "sec/op", false)
+	keepCase([]histLine{w32}, "u", "no-such-unit", false)
+	keepCase([]histLine{w64}, "u", "ns/op", false)
+	histCase([][]histLine{{w32, w64}}, "u", "ns/op")
 
 	// fixed units × special values
 	for _, u := range fixedUnits {
@@ -1234,6 +1316,12 @@ func main() {
 	nk := hx.N(3000, 60000)
 	for i := 0; i < nk; i++ {
 		genKeep(r)
+	}
+
+	// results with exactly 32·k measurements and their neighbours
+	nw := hx.N(1200, 24000)
+	for i := 0; i < nw; i++ {
+		genWide(r, wideNs[i%len(wideNs)])
 	}
 
 	// concurrent first use of fresh units (Tidy and separate Readers)
